@@ -158,8 +158,14 @@ func (fip *FloatingIPPool) UnmarshalJSON(data []byte) error {
 }
 
 func fipCheck(fip *FloatingIPPool) error {
+	if fip.Gateway.To4() == nil {
+		return fmt.Errorf("gateway %s is not an ipv4 address", fip.Gateway.String())
+	}
 	net := net.IPNet{IP: fip.Gateway, Mask: fip.Mask}
 	for i := range fip.IPRanges {
+		if fip.IPRanges[i].First.To4() == nil || fip.IPRanges[i].Last.To4() == nil {
+			return fmt.Errorf("ip range %s is not an ipv4 range", fip.IPRanges[i].String())
+		}
 		if !net.Contains(fip.IPRanges[i].First) || !net.Contains(fip.IPRanges[i].Last) {
 			return fmt.Errorf("ip range %s not in subnet %s", fip.IPRanges[i].String(), net.String())
 		}
